@@ -719,6 +719,7 @@ class Module(HasAccessibles):
                     m.pollInfo.last_main = 0
                     m.pollInfo.last_slow = 0
                 trg.set()
+                return True  # keep the callback: polls have to be triggered after every reconnect
             self.registerReconnectCallback('trigger_polls', trigger_all)
 
         # collect all read functions
